@@ -21,9 +21,19 @@ static long nchecks = 0;
 static FILE* g_trace = nullptr;       // non-dev trace lines (--trace PREFIX), else stdout records
 static FILE* g_trace_dev = nullptr;   // trace lines of cases tagged with a known-deviation class
 
+static long ndev_mismatches = 0;
+static std::map<std::string, int> g_dev_seen;
+// A mismatch on a case the spec tagged with known-deviation classes is reported at most 3 times per
+// (classes, what, flavour, route) and shard, outside the framework's cap of 300 mismatch records per shard, so that
+// the (many) known deviations can never crowd out an untagged mismatch.
 static void fail(size_t idx, const mj::Value& c, const char* flavour, const char* route, const std::string& what, const mj::Value& got, const std::string& text) {
     mj::Value m = hz::rec("mismatch"); m.set("idx", (int64_t)idx); m.set("flavour", flavour); m.set("route", route); m.set("what", what);
-    m.set("got", got); m.set("text", jc::cps_of(text)); m.set("case", c); hz::emit_mismatch(m);
+    m.set("got", got); m.set("text", jc::cps_of(text)); m.set("case", c);
+    if (c["dev"].size() > 0) {
+        ++ndev_mismatches;
+        std::string key = mj::dump(c["dev"]) + what + flavour + route;
+        if (++g_dev_seen[key] <= 3) hz::emit(m);
+    } else hz::emit_mismatch(m);
 }
 static std::string cp_str(const mj::Value& v) { std::string s; jc::put_utf8(s, (uint32_t)v.as_int()); return s; }
 
@@ -139,6 +149,6 @@ int main(int argc, char** argv) {
     });
     if (g_trace) fclose(g_trace);
     if (g_trace_dev) fclose(g_trace_dev);
-    mj::Value s = hz::rec("stat"); s.set("cases", (int64_t)ncases); s.set("checks", (int64_t)nchecks); hz::emit(s);
+    mj::Value s = hz::rec("stat"); s.set("cases", (int64_t)ncases); s.set("checks", (int64_t)nchecks); s.set("dev_mismatches", (int64_t)ndev_mismatches); hz::emit(s);
     return 0;
 }
